@@ -260,6 +260,7 @@ pub fn run_plan(b: u64, plan: &Value, seed: u64, out: &mut Out) -> (u64, bool) {
     let end_ns = if long > 0 { t0 + long * 60_000 * MS } else { t0 + (at.last().cloned().unwrap_or(0) + 6000) * MS };
 
     let pre_timeout = std::cell::Cell::new(500 * MS);
+    let abandon: Vec<String> = plan["abandon"].as_array().map(|a| a.iter().filter_map(|x| x.as_str().map(|s| s.to_string())).collect()).unwrap_or_default();
     let reused: std::cell::RefCell<Vec<u32>> = std::cell::RefCell::new(vec![]);
     let mut emit = |sim: &mut Sim, calls: &mut Vec<Option<Call>>, called: &Vec<String>, reqs: &mut HashMap<u32, (SocketAddrV4, String, u64)>, log_pos: &mut usize,
                     step: Value, prev_live_empty: &mut bool, out: &mut Out| {
@@ -300,6 +301,12 @@ pub fn run_plan(b: u64, plan: &Value, seed: u64, out: &mut Out) -> (u64, bool) {
             outcomes.insert(n.to_string(), json!(0));
         }
         for (i, name) in call_names.iter().enumerate() {
+            if abandon.contains(name) && calls[i].is_some() {
+                // the caller has dropped its receiver: nothing of this call can be observed any more
+                done.insert(name.clone(), json!("abandoned"));
+                got.insert(name.clone(), json!([]));
+                continue;
+            }
             if let Some(call) = &calls[i] {
                 let d = match call.outcome() {
                     None => "pending".to_string(),
@@ -394,6 +401,7 @@ pub fn run_plan(b: u64, plan: &Value, seed: u64, out: &mut Out) -> (u64, bool) {
         line["t_ms"] = json!(ms_of(now));
         line["expired"] = json!(expired);
         line["tid_reused"] = json!(reused.borrow().clone());
+        line["abandoned"] = json!(abandon.clone());
         line["proj"] = proj;
         line["outcomes"] = Value::Object(outcomes);
         line["quiet"] = json!(*prev_live_empty && line["e"] == "tick" && line["input"]["dir"] == "timeout");
@@ -431,6 +439,10 @@ pub fn run_plan(b: u64, plan: &Value, seed: u64, out: &mut Out) -> (u64, bool) {
                     let item = MutableItem::new(&sk, &val, seq, None);
                     sim.call_put(c, PutRequestSpecific::PutMutable(v::PutMutableRequestArguments::from(item, cas)), None, &name)
                 };
+                let mut call = call;
+                if abandon.contains(&name) {
+                    call.abandon();
+                }
                 calls[i] = Some(call);
                 called.push(name.clone());
                 sim.flush();
@@ -536,7 +548,7 @@ pub fn run(args: &Args) -> i32 {
         let inflight = plan["store"] == "drop_p1" && plan["long"].as_u64().unwrap_or(0) == 0 && plan["calls"].as_array().map(|c| c.len() >= 2).unwrap_or(false)
             && plan["gaps"].as_array().map(|g| g.iter().any(|x| x.as_u64() == Some(400))).unwrap_or(false)
             && plan["hold"]["a"] == 0 && plan["hold"]["b"] == false && !has_silent;
-        let join = plan["join"].as_bool().unwrap_or(false);
+        let join = plan["join"].as_bool().unwrap_or(false) || plan["abandon"].as_array().map(|a| !a.is_empty()).unwrap_or(false);
         if class_only == "join" && !join {
             b += 1;
             continue;
